@@ -305,11 +305,10 @@ def r3(ctx):
                     continue
                 sa = {origin_summary(o) for o in trace(hb, c["a"], through_calls=False)}
                 sb = {origin_summary(o) for o in trace(hb, c["b"], through_calls=False)}
-                if any("elapsed" in x for x in sa) and any("MAX_COMMIT_DELAY" in x for x in sb) and c["op"] in (">", ">="):
+                # (which way the comparison is written, and which branch commits, is decided by R4's evaluated fresh / older cells)
+                if (any("elapsed" in x for x in sa) and any("MAX_COMMIT_DELAY" in x for x in sb)) or (any("elapsed" in x for x in sb) and any("MAX_COMMIT_DELAY" in x for x in sa)):
                     ok = True
-                if any("elapsed" in x for x in sb) and any("MAX_COMMIT_DELAY" in x for x in sa) and c["op"] in ("<", "<="):
-                    ok = True
-        ctx.check(ok, "C06.R3", b.path, "age-check", "commits the open transaction when since.elapsed() > MAX_COMMIT_DELAY", b.sp)
+        ctx.check(ok, "C06.R3", b.path, "age-check", "the age of the open transaction is compared with MAX_COMMIT_DELAY (the outcome per age is R4's)", b.sp)
     ctx.floor("C06.R3", 5)
 
 
